@@ -173,15 +173,15 @@ def NodesRun (p : Bool) (X : List Item) : Prop :=
 def BaseX : Base → List Item → List Item → Prop
   | .bottom _, _, X => X = []
   | .nodesBelow p _, _, X => NodesRun p X
-  | .opaque, R, X => X = R
+  | .rest, R, X => X = R
 
 def Base.top : Base → Bool
   | .bottom t => t
   | .nodesBelow _ t => t
-  | .opaque => false
+  | .rest => false
 
 def Base.isOpaque : Base → Bool
-  | .opaque => true
+  | .rest => true
   | _ => false
 
 /-- what is known about `p.paramsList` when no frame has been put aside -/
